@@ -22,6 +22,10 @@ LAYOUTS = {
     'multirole:none+aa-signing': (('@aa', 'idpA', 'signing'),),
     # a signing key descriptor that carries no certificate (schema-legal: KeyName only / X509SubjectName only / KeyValue
     # only) next to a real signing certificate
+    # metadata obtained from an MDQ service (modelled at mdstore.requests.get): strict, or answering identifiers it does
+    # not know with the descriptor of IdP B (a front end that canonicalises / falls back)
+    'mdq-strict': (('idpA', 'signing'),),
+    'mdq-fallback-to-B': (('idpA', 'signing'),),
     'keyname-then-signing': (('@nocert:keyname', None, 'signing'), ('idpA', 'signing')),
     'signing-then-subjectname': (('idpA', 'signing'), ('@nocert:subjectname', None, 'signing')),
     'keyvalue-useless-then-signing': (('@nocert:keyvalue', None, None), ('idpA', 'signing')),
@@ -65,8 +69,46 @@ def md_a(layout):
     return x
 
 
+class _MdqResp(object):
+    def __init__(self, code, body=''):
+        self.status_code = code
+        self.content = body.encode('utf-8')
+        self.text = body
+
+
+def mdq_get(layout):
+    import hashlib
+    docs = {}
+    b = world.idp_md(IDP_B, keys=(('idpB', 'signing'),), sso=(('https://idpb.example/sso', world.BINDING_HTTP_REDIRECT),), slo=())
+    for eid, doc in ((IDP_A, world.idp_md(IDP_A, keys=LAYOUTS[layout])), (IDP_B, b)):
+        docs['{sha1}' + hashlib.sha1(eid.encode('utf-8')).hexdigest()] = doc
+
+    def get(url, **kw):
+        key = url.rsplit('/', 1)[1]
+        if key in docs:
+            return _MdqResp(200, docs[key])
+        return _MdqResp(200, b) if layout.endswith('fallback-to-B') else _MdqResp(404)
+    return get
+
+
 def sp_for(layout, only, backend=None):
     k = (layout, only) if backend is None else (layout, only, backend)
+    if layout.startswith('mdq'):
+        from saml2_tophat import mdstore
+
+        class _Req(object):
+            get = staticmethod(mdq_get(layout))
+        mdstore.requests = _Req
+        if k not in _sp:
+            from saml2_tophat.config import SPConfig
+            from saml2_tophat.client import Saml2Client
+            top = {} if only is None else {'only_use_keys_in_metadata': only}
+            d = world.sp_config(TMP[0], [], top=top, want_response_signed=False)
+            d['metadata'] = {'mdq': ['https://mdq.example']}
+            c = SPConfig()
+            c.load(d)
+            _sp[k] = Saml2Client(c)
+        return _sp[k]
     if k not in _sp:
         top = {} if only is None else {'only_use_keys_in_metadata': only}
         if backend:
@@ -224,7 +266,7 @@ def run(ctx):
         'level': 'exploration',
         'coverage': {
             'evaluations': n, 'distinct_nontrivial': len(nontriv), 'exhaustive': True, 'accepted': acc, 'vacuous': acc == 0,
-            'rule': 'complete product: metadata layout of IdP A (one/two signing certs, encryption-only, signing+encryption, use-less, none; IdP B always has its own) (also a two-role entity whose first role has no signing key while its attribute-authority role has one, and signing key descriptors without a certificate - KeyName / X509SubjectName / KeyValue only - next to a real one) x claimed Issuer (A, B, unknown, absent) x actual signing key (A, A2, A-encryption, B, mallory) x embedded KeyInfo (none, X509 of signer, X509 of A, RSAKeyValue of signer) x signed element (response, assertion, and a response validly signed by its issuer carrying an assertion of another issuer) x only_use_keys_in_metadata (True, absent, False); a sub-product under crypto_backend XMLSecurity (pyXMLSecurity modelled by vp/pyxmlsec_model.py); non-trivial = cells where the statement forbids acceptance',
+            'rule': 'complete product: metadata layout of IdP A (one/two signing certs, encryption-only, signing+encryption, use-less, none; IdP B always has its own) (also a two-role entity whose first role has no signing key while its attribute-authority role has one, and signing key descriptors without a certificate - KeyName / X509SubjectName / KeyValue only - next to a real one; metadata from an MDQ service, strict or answering unknown identifiers with the descriptor of IdP B) x claimed Issuer (A, B, unknown, absent) x actual signing key (A, A2, A-encryption, B, mallory) x embedded KeyInfo (none, X509 of signer, X509 of A, RSAKeyValue of signer) x signed element (response, assertion, and a response validly signed by its issuer carrying an assertion of another issuer) x only_use_keys_in_metadata (True, absent, False); a sub-product under crypto_backend XMLSecurity (pyXMLSecurity modelled by vp/pyxmlsec_model.py); non-trivial = cells where the statement forbids acceptance',
             'samples': [{'cell': list(cs[i0]), 'outcomes': [list(o) for o in res[i0]]}],
             'distinct_outcomes': len(hist), 'outcome_histogram': hist,
         },
